@@ -73,10 +73,10 @@ func getNonPluginExtendedCriticalAttributes(signerInfo *signature.SignerInfo) []
 	var criticalExtendedAttrs []signature.Attribute
 	for _, attr := range signerInfo.SignedAttributes.ExtendedAttributes {
 		attrStrKey, ok := attr.Key.(string)
-		// filter the plugin extended attributes
-		if ok && !slices.Contains(VerificationPluginHeaders, attrStrKey) {
-			// TODO support other attribute types
-			// (COSE attribute keys can be numbers)
+		// filter the plugin extended attributes. An attribute whose key is
+		// not a string (COSE attribute keys can be numbers) is never one of
+		// them and must be processed like any other.
+		if !ok || !slices.Contains(VerificationPluginHeaders, attrStrKey) {
 			criticalExtendedAttrs = append(criticalExtendedAttrs, attr)
 		}
 	}
